@@ -1,9 +1,10 @@
 ---------------------------- MODULE ScRecv_MC ----------------------------
 EXTENDS ScRecv
 
-M(n)     == [n |-> n, ab |-> FALSE, cut |-> n]
-MA(n)    == [n |-> n, ab |-> TRUE,  cut |-> n]
-MCut(n, k) == [n |-> n, ab |-> FALSE, cut |-> k]
+M(n)     == [n |-> n, ab |-> FALSE, cut |-> n, sz |-> "small"]
+MA(n)    == [n |-> n, ab |-> TRUE,  cut |-> n, sz |-> "small"]
+MCut(n, k) == [n |-> n, ab |-> FALSE, cut |-> k, sz |-> "small"]
+MS(n, z) == [n |-> n, ab |-> FALSE, cut |-> n, sz |-> z]
 
 Plain    == [first |-> 2, wrapAfter |-> NoWrap, wrapTo |-> 0]
 SeqPlain == {Plain}
@@ -36,6 +37,14 @@ SeqC12   == { Plain,
 PlansC12q == { <<M(2), M(1), M(2)>>, <<M(2), MA(2), M(1)>>, <<M(3), M(2)>> }
 PlansC12  == { <<M(2), M(1), M(2)>>, <<M(2), MA(2), M(1)>>, <<M(3), M(2)>>, <<MA(1), M(2), M(1)>>,
                <<M(2), M(2), MA(3)>>, <<M(1), M(1), M(1), M(1)>> }
+
+\* ---- C12 at the negotiated limits (MaxMessageSize 16384 and MaxChunkCount 40 through the ACK):
+\* bodies at / just below / above MaxMessageSize in many small chunks and in few large ones; rounds of
+\* aborted partial messages (more aborted chunks than MaxChunkCount in total) before ordinary messages
+PlansLim  == { <<MS(38, "limit"), M(1)>>, <<MS(2, "limit"), M(2)>>, <<MS(38, "near"), MS(3, "near")>>,
+               <<MS(12, "over"), M(1)>>, <<MS(2, "over"), MS(19, "limit")>>,
+               <<MA(15), MA(15), MA(15), M(5), M(3), M(1)>>,
+               <<MA(3), MA(19), MA(2), MA(19), MA(5), MS(30, "near"), M(4)>> }
 
 \* ---- C20: histories of single- and multi-chunk messages received back to back
 PlansC20  == [1..3 -> {M(1), M(2), M(3)}]
